@@ -33,12 +33,12 @@ namespace Redact
 theorem printArg_frame (env : Env) (he : EnvOk env) (n : Nat) (p : PP) (hp : Pre p) (v : Val) (hv : ValOk v)
     (verb : Nat) (q : PP) (h : printArg env n p v verb = .ok q) :
     Inv q.buf ∧ q.buf.mode = p.buf.mode ∧ q.override = p.override :=
-  (spec_all env he n).printArg p v verb hp hv q h
+  ((spec_all env he n).printArg p v verb hp hv).1 q h
 
 theorem printValue_frame (env : Env) (he : EnvOk env) (n : Nat) (p : PP) (hp : Pre p) (v : Val) (hv : ValOk v)
     (verb d : Nat) (ro : Bool) (q : PP) (h : printValue env n p v verb d ro = .ok q) :
     Inv q.buf ∧ q.buf.mode = p.buf.mode ∧ q.override = p.override :=
-  (spec_all env he n).printValue p v verb d ro hp hv q h
+  ((spec_all env he n).printValue p v verb d ro hp hv).1 q h
 
 /-- A user method (SafeFormat, Format, error hook) that finishes or panics
 leaves mode and override as it found them. -/
@@ -95,7 +95,7 @@ def Res.safeText : Res → Option (List Byte)
   | .ok p => some (dropEnv p.buf.redactableBytes)
   | _ => none
 
-theorem safeText_eq_of_RR {ov0 : Override} {r1 r2 : Res} (h : RR ov0 r1 r2) : r1.safeText = r2.safeText := by
+theorem safeText_eq_of_RR {pub : Nat → Prop} {ov0 : Override} {r1 r2 : Res} (h : RR pub ov0 r1 r2) : r1.safeText = r2.safeText := by
   cases r1 <;> cases r2 <;> simp only [RR] at h <;> try (exact h.elim)
   · simp only [Res.safeText]
     rw [dropEnv_eq_of_brel _ _ h.1.b]
